@@ -38,6 +38,13 @@ pub fn value(idx: u8) -> Vec<u8> {
         1 => b"2".to_vec(),
         2 => Vec::new(),
         3 => big_value(0),
+        4 => {
+            // 9000 bytes: a single journal item larger than the journal's 8 KiB write buffer
+            let mut v = big_value(1);
+            v.extend(big_value(2));
+            v.truncate(9000);
+            v
+        }
         n => format!("v{n}").into_bytes(),
     }
 }
